@@ -8,6 +8,7 @@ from ..core.astutil import u, dotted, call_name, kwarg, walk_local, parent_map, 
 from ..core.loader import AnchorError, Undecided
 from ..core.report import Ctx
 from ..core import cfg as cfgmod
+from .c34 import normalise  # behaviour-preserving rewrites shared by this rule family
 
 UNITS = "src/porepy/models/units.py"
 MATERIALS = "src/porepy/compositional/materials.py"
@@ -43,7 +44,7 @@ META = {
     "rule_text": "one obligation per derived/base unit, per parser clause, per Constants subclass clause and field, per unit string, per constant use",
     "trusted_base": ["python ast", "exact monomial arithmetic over Fractions (class Mono in this module)",
                      "SI definitions of Pa, J, N, W", "sa.core"],
-    "assumptions": ["unit strings that are not literals (values of variables, tags read back) are covered at the literal "
+    "assumptions": ["the normaliser applied to a copy of each anchored function (guard-continue -> if/else, one level of same-module helper inlining incl. early returns, c34.normalise) preserves behaviour", "unit strings that are not literals (values of variables, tags read back) are covered at the literal "
                     "sites they originate from", "f-string exponents are integers"],
     "technique": "table extraction + exact monomial normal form + dataflow on the parser loop",
 }
@@ -214,6 +215,19 @@ def _units_system(ctx: Ctx):
             ctx.check("R1", key == tgt.attr and isinstance(default, ast.Constant) and default.value == 1, mod, "Units.__init__", s,
                       f"base unit `{tgt.attr}` must be read from kwargs['{tgt.attr}'] with default 1; it reads kwargs[{key!r}] "
                       f"default {u(default) if default is not None else None}", construct=f"base unit {tgt.attr} <- kwargs[{key!r}]")
+    for lp in [n for n in walk_local(init) if isinstance(n, ast.For) and isinstance(n.target, ast.Name)
+               and isinstance(n.iter, (ast.Tuple, ast.List)) and all(isinstance(e, ast.Constant) and isinstance(e.value, str) for e in n.iter.elts)]:
+        K = lp.target.id
+        for c in [c for c in walk_local(lp) if isinstance(c, ast.Call) and call_name(c) == "setattr" and len(c.args) == 3
+                  and u(c.args[0]) == "self"]:
+            val = c.args[2]
+            ok = u(c.args[1]) == K and isinstance(val, ast.Call) and call_name(val) == "get" and u(val.func.value) == "kwargs" \
+                and len(val.args) == 2 and u(val.args[0]) == K and isinstance(val.args[1], ast.Constant) and val.args[1].value == 1
+            for e in lp.iter.elts:
+                base.append(e.value)
+                ctx.check("R1", ok, mod, "Units.__init__", c,
+                          f"base unit `{e.value}` must be read from kwargs['{e.value}'] with default 1 (set in a loop: `{u(c)}`)",
+                          construct=f"base unit {e.value} <- kwargs[{e.value!r}]" if ok else f"base unit {e.value} <- {u(val)}")
     if len(base) < 3:
         raise AnchorError("Units.__init__: base unit assignments `self.X = kwargs.get('X', 1)` not found")
     # permitted keys
@@ -255,11 +269,11 @@ def _units_system(ctx: Ctx):
     return mod, cls, meths, us
 
 
-def _check_convert(ctx: Ctx, mod, meths) -> tuple[bool, list[str]]:
+def _check_convert(ctx: Ctx, mod, cls, meths) -> tuple[bool, list[str]]:
     q = "Units.convert_units"
-    fn = meths.get("convert_units")
-    if fn is None:
+    if meths.get("convert_units") is None:
         raise AnchorError(f"{q} missing")
+    fn = normalise(mod, meths["convert_units"], cls=cls)
     params = [a.arg for a in fn.args.args]
     if params[:4] != ["self", "value", "units", "to_si"]:
         raise AnchorError(f"{q}: signature changed: {params}")
@@ -269,13 +283,23 @@ def _check_convert(ctx: Ctx, mod, meths) -> tuple[bool, list[str]]:
     if len(loops) != 1:
         raise AnchorError(f"{q}: expected one loop over the unit components")
     loop = loops[0]
-    # blanks stripped
-    strip = [s for s in fn.body if isinstance(s, ast.Assign) and u(s.targets[0]) == UN and isinstance(s.value, ast.Call)
-             and call_name(s.value) == "replace" and [u(a) for a in s.value.args] == ["' '", "''"] and s.lineno < loop.lineno]
-    strip_blanks = bool(strip)
+    # what happens to the unit string before the loop
+    strip_blanks = False
+    for s in fn.body:
+        if s.lineno >= loop.lineno:
+            break
+        if isinstance(s, ast.Assign) and u(s.targets[0]) == UN:
+            v = s.value
+            if (_is_call(v, "replace") and [u(a) for a in v.args] == ["' '", "''"] and u(v.func.value) == UN) or \
+                    (_is_call(v, "join") and u(v.func.value) == "''" and u(v.args[0]) == f"{UN}.split()") or \
+                    (_is_call(v, "sub") and len(v.args) == 3 and u(v.args[1]) == "''" and u(v.args[2]) == UN and "s" in u(v.args[0])):
+                strip_blanks = True
+            elif _is_call(v, "strip") and u(v.func.value) == UN:
+                pass  # outer blanks only
+            else:
+                raise Undecided(f"{q}: unit string is rewritten by `{u(s)}` before parsing: unknown idiom")
     # shortcut
     shortcuts: list[str] = []
-    sc_ok = False
     for iff in [s for s in fn.body if isinstance(s, ast.If) and s.lineno < loop.lineno]:
         t = iff.test
         if isinstance(t, ast.Compare) and isinstance(t.ops[0], ast.In) and u(t.left) == UN and isinstance(t.comparators[0], (ast.List, ast.Tuple, ast.Set)):
@@ -286,79 +310,135 @@ def _check_convert(ctx: Ctx, mod, meths) -> tuple[bool, list[str]]:
     # split on '*'
     it = loop.iter
     ok_split = isinstance(it, ast.Call) and call_name(it) == "split" and u(it.func.value) == UN and [u(a) for a in it.args] == ["'*'"]
-    ctx.check("R2", ok_split and isinstance(loop.target, ast.Name), mod, q, loop,
-              f"components are obtained by `{UN}.split('*')`; found `{u(it)}`", construct=f"component loop over {u(it)}")
-    if not (ok_split and isinstance(loop.target, ast.Name)):
+    if not (isinstance(it, ast.Call) and call_name(it) == "split" and u(it.func.value) == UN and len(it.args) == 1
+            and isinstance(it.args[0], ast.Constant)) or not isinstance(loop.target, ast.Name):
+        raise Undecided(f"{q}: component loop `for {u(loop.target)} in {u(it)}` not recognised")
+    ctx.check("R2", ok_split, mod, q, loop,
+              f"components are obtained by `{UN}.split('*')`; found `{u(it)}`", construct=f"component loop over {u(it).replace(UN, 'UNITS')}")
+    if not ok_split:
         return strip_blanks, shortcuts
     SUB = loop.target.id
-    # power arm
-    arms = [s for s in loop.body if isinstance(s, ast.If)]
-    pw = [s for s in arms if isinstance(s.test, ast.Compare) and isinstance(s.test.ops[0], ast.In) and u(s.test.left) == "'^'"
-          and u(s.test.comparators[0]) == SUB]
-    if len(pw) != 1:
+    # power arm: an if on `'^' in SUB` / `'^' not in SUB`
+    pw = None
+    for s in walk_local(loop):
+        if isinstance(s, ast.If) and isinstance(s.test, ast.Compare) and len(s.test.ops) == 1 \
+                and isinstance(s.test.ops[0], (ast.In, ast.NotIn)) and u(s.test.left) == "'^'" and u(s.test.comparators[0]) == SUB:
+            pw = s
+    if pw is None:
         raise Undecided(f"{q}: the `'^' in component` arm was not found")
-    pw = pw[0]
-    unpack = [s for s in pw.body if isinstance(s, ast.Assign) and isinstance(s.targets[0], ast.Tuple) and isinstance(s.value, ast.Call)
-              and call_name(s.value) == "split" and [u(a) for a in s.value.args] == ["'^'"]]
-    if len(unpack) != 1 or len(unpack[0].targets[0].elts) != 2:
+    has_arm, plain_arm = (pw.body, pw.orelse) if isinstance(pw.test.ops[0], ast.In) else (pw.orelse, pw.body)
+    unpack = [s for s in has_arm if isinstance(s, ast.Assign) and isinstance(s.targets[0], ast.Tuple) and isinstance(s.value, ast.Call)
+              and call_name(s.value) in ("split", "partition") and u(s.value.args[0]) == "'^'"]
+    if len(unpack) != 1:
         raise Undecided(f"{q}: `name, power = component.split('^')` not found")
-    NAME, POW = [e.id for e in unpack[0].targets[0].elts]
-    fac_p = [s for s in pw.body if isinstance(s, ast.Assign) and isinstance(s.targets[0], ast.Name) and s is not unpack[0]]
-    fac_e = [s for s in pw.orelse if isinstance(s, ast.Assign) and isinstance(s.targets[0], ast.Name)]
-    if len(fac_p) != 1 or len(fac_e) != 1 or fac_p[0].targets[0].id != fac_e[0].targets[0].id:
+    tg = unpack[0].targets[0].elts
+    if call_name(unpack[0].value) == "partition":
+        if len(tg) != 3:
+            raise Undecided(f"{q}: partition unpacking not recognised")
+        NAME, POW = tg[0].id, tg[2].id
+    else:
+        if len(tg) != 2:
+            raise Undecided(f"{q}: split unpacking not recognised")
+        NAME, POW = tg[0].id, tg[1].id
+
+    def factor_assign(arm):
+        c = [s for s in arm if isinstance(s, ast.Assign) and isinstance(s.targets[0], ast.Name) and "getattr" in u(s.value)]
+        return c[0] if len(c) == 1 else None
+    fac_p, fac_e = factor_assign(has_arm), factor_assign(plain_arm)
+    if fac_p is None or fac_e is None or fac_p.targets[0].id != fac_e.targets[0].id:
         raise Undecided(f"{q}: factor assignments of the two arms not recognised")
-    FAC = fac_p[0].targets[0].id
-    want_p = f"getattr(self, {NAME}) ** float({POW})"
-    ctx.check("R2", u(fac_p[0].value) == want_p and u(unpack[0].value.func.value) == SUB, mod, q, fac_p[0],
-              f"with an exponent the factor must be `{want_p}` where `{NAME}, {POW} = {SUB}.split('^')` (name first, power second); "
-              f"found `{u(fac_p[0].value)}` after `{u(unpack[0])}`",
-              construct=f"power arm: {u(unpack[0])}; {u(fac_p[0])}")
-    sub_after = NAME if NAME == SUB else SUB
-    ctx.check("R2", u(fac_e[0].value) == f"getattr(self, {SUB})", mod, q, fac_e[0],
-              f"without an exponent the factor must be `getattr(self, {SUB})`; found `{u(fac_e[0].value)}`",
-              construct=f"plain arm: {u(fac_e[0])}")
-    # direction arms
+    FAC = fac_p.targets[0].id
+    fac_names = {FAC} | {s_.targets[0].id for s_ in walk_local(loop) if isinstance(s_, ast.Assign) and len(s_.targets) == 1
+                         and isinstance(s_.targets[0], ast.Name) and isinstance(s_.value, ast.Name) and s_.value.id == FAC}
+    roles = {NAME: "NAME", POW: "POW", SUB: "SUB"}
+
+    def canon(e):
+        import copy as _copy
+        e2 = _copy.deepcopy(e)
+        for n in ast.walk(e2):
+            if isinstance(n, ast.Name) and n.id in roles:
+                n.id = roles[n.id]
+        return u(e2)
+    # NAME may shadow SUB (the repo re-uses the loop variable): roles maps NAME first, so both print as NAME/SUB consistently
+    p_txt = canon(fac_p.value)
+    name_lbl = roles[NAME]
+    ok_p = p_txt == f"getattr(self, {name_lbl}) ** float(POW)" and u(unpack[0].value.func.value) == SUB
+    p_vocab_ok = set(names_in(fac_p.value)) <= {"getattr", "self", "float", NAME, POW, SUB}
+    if not ok_p and not p_vocab_ok:
+        raise Undecided(f"{q}: factor expression `{u(fac_p.value)}` not recognised")
+    ctx.check("R2", ok_p, mod, q, fac_p,
+              f"with an exponent the factor must be getattr(self, <name>) ** float(<power>) where <name>, <power> = component.split('^') "
+              f"(name first, power second); found `{u(fac_p.value)}` after `{u(unpack[0])}`",
+              construct=f"power arm: {canon(unpack[0].targets[0])} = {canon(unpack[0].value)}; {p_txt}")
+    e_txt = canon(fac_e.value)
+    if e_txt not in ("getattr(self, SUB)", "getattr(self, NAME)") and not set(names_in(fac_e.value)) <= {"getattr", "self", NAME, POW, SUB}:
+        raise Undecided(f"{q}: factor expression `{u(fac_e.value)}` not recognised")
+    ctx.check("R2", u(fac_e.value) == f"getattr(self, {SUB})", mod, q, fac_e,
+              f"without an exponent the factor must be `getattr(self, {SUB})`; found `{u(fac_e.value)}`",
+              construct=f"plain arm: {e_txt}")
+    # direction: if/else on to_si, or a conditional expression
     dirs = [s for s in loop.body if isinstance(s, ast.If) and s is not pw and TOSI in names_in(s.test)]
-    if len(dirs) != 1:
-        nested = [s for s in walk_local(loop) if isinstance(s, ast.If) and s is not pw and TOSI in names_in(s.test)]
-        ctx.check("R2", False, mod, q, nested[0] if nested else loop,
-                  "the conversion must be applied once per component, directly in the component loop (not inside the exponent arm)",
-                  construct="direction arms placement")
-        return strip_blanks, shortcuts
-    d = dirs[0]
-    pol = True if (isinstance(d.test, ast.Name) and d.test.id == TOSI) else (
-        False if (isinstance(d.test, ast.UnaryOp) and isinstance(d.test.op, ast.Not) and u(d.test.operand) == TOSI) else None)
-    if pol is None:
-        raise Undecided(f"{q}: direction test `{u(d.test)}` not recognised")
+    ifexp = [s for s in loop.body if isinstance(s, ast.Assign) and u(s.targets[0]) == VAL and isinstance(s.value, ast.IfExp)
+             and TOSI in names_in(s.value.test)]
+
+    def polarity(t):
+        if isinstance(t, ast.Name) and t.id == TOSI:
+            return True
+        if isinstance(t, ast.UnaryOp) and isinstance(t.op, ast.Not) and u(t.operand) == TOSI:
+            return False
+        return None
+
+    def binop_of(e):
+        if isinstance(e, ast.BinOp) and u(e.left) == VAL and u(e.right) in fac_names:
+            return ("new", type(e.op).__name__)
+        return None
 
     def op_of(body):
         if len(body) != 1:
             return None
         s = body[0]
-        if isinstance(s, ast.AugAssign) and u(s.target) == VAL and u(s.value) == FAC:
+        if isinstance(s, ast.AugAssign) and u(s.target) == VAL and u(s.value) in fac_names:
             return ("aug", type(s.op).__name__)
-        if isinstance(s, ast.Assign) and u(s.targets[0]) == VAL and isinstance(s.value, ast.BinOp) and u(s.value.left) == VAL \
-                and u(s.value.right) == FAC:
-            return ("new", type(s.value.op).__name__)
+        if isinstance(s, ast.Assign) and u(s.targets[0]) == VAL:
+            return binop_of(s.value)
         return None
-    a_true, a_false = (op_of(d.body), op_of(d.orelse)) if pol else (op_of(d.orelse), op_of(d.body))
+    if len(dirs) == 1 and not ifexp:
+        d = dirs[0]
+        pol = polarity(d.test)
+        if pol is None:
+            raise Undecided(f"{q}: direction test `{u(d.test)}` not recognised")
+        a_true, a_false = (op_of(d.body), op_of(d.orelse)) if pol else (op_of(d.orelse), op_of(d.body))
+    elif len(ifexp) == 1 and not dirs:
+        d = ifexp[0]
+        pol = polarity(d.value.test)
+        if pol is None:
+            raise Undecided(f"{q}: direction test `{u(d.value.test)}` not recognised")
+        a_true, a_false = (binop_of(d.value.body), binop_of(d.value.orelse)) if pol else (binop_of(d.value.orelse), binop_of(d.value.body))
+    else:
+        nested = [s for s in walk_local(loop) if isinstance(s, ast.If) and s is not pw and TOSI in names_in(s.test)]
+        if nested and len(nested) >= 1 and all(any(n is x for x in ast.walk(pw)) for n in nested):
+            ctx.check("R2", False, mod, q, nested[0],
+                      "the conversion must be applied once per component, directly in the component loop (not inside the exponent arm)",
+                      construct="direction arms placement")
+            return strip_blanks, shortcuts
+        raise Undecided(f"{q}: application of the factor (multiply / divide on `{TOSI}`) not recognised")
     if a_true is None or a_false is None:
         raise Undecided(f"{q}: direction arms are not `{VAL} *= {FAC}` / `{VAL} /= {FAC}`")
     ctx.check("R2", a_true[1] == "Mult" and a_false[1] == "Div", mod, q, d,
               f"to_si multiplies by the unit's size in SI, the other direction divides by the same factor; found to_si -> "
               f"{a_true[1]}, otherwise -> {a_false[1]}", construct=f"to_si:{a_true[1]} else:{a_false[1]}")
-    n_d = g.node_for(d)
-    n_loop = g.node_for(loop)
-    after_factor = g.dominates(g.node_for(pw), n_d)
+    after_factor = g.dominates(g.node_for(pw), g.node_for(d))
     ctx.check("R2", after_factor, mod, q, d, "the factor of the component must be computed before it is applied",
               construct="factor before application")
     # aliasing: in-place update of an ndarray argument needs a copy first
     if a_true[0] == "aug" or a_false[0] == "aug":
         copies = [s for s in walk_local(fn) if isinstance(s, ast.Assign) and u(s.targets[0]) == VAL and isinstance(s.value, ast.Call)
-                  and call_name(s.value) == "copy" and u(s.value.func.value) == VAL]
+                  and ((call_name(s.value) == "copy" and u(s.value.func.value) == VAL)
+                       or (call_name(s.value) in ("copy", "array") and s.value.args and u(s.value.args[0]) == VAL))]
         ok_copy = False
+        pmf = parent_map(fn)
         for c in copies:
-            par = parent_map(fn).get(c)
+            par = pmf.get(c)
             guarded_ok = isinstance(par, ast.If) and isinstance(par.test, ast.Call) and call_name(par.test) == "isinstance" \
                 and u(par.test.args[0]) == VAL and "ndarray" in u(par.test.args[1]) and par in fn.body
             if (c in fn.body or guarded_ok) and c.lineno < loop.lineno:
@@ -371,6 +451,10 @@ def _check_convert(ctx: Ctx, mod, meths) -> tuple[bool, list[str]]:
               "the converted value is returned after all components were applied", construct="return after loop")
     ctx.sample({"rule": "R2", "strip_blanks": strip_blanks, "shortcuts": shortcuts})
     return strip_blanks, shortcuts
+
+
+def _is_call(e, name: str) -> bool:
+    return isinstance(e, ast.Call) and call_name(e) == name
 
 
 # =====================================================================================
@@ -467,6 +551,10 @@ def _si_table(ci: ClsInfo, table: dict[str, ClsInfo], cache: dict, depth=0) -> d
                 else:
                     raise Undecided(f"{name}.SI_units: keyword `{kw.arg}` is not a string literal")
             return acc
+        if isinstance(v, ast.BinOp) and isinstance(v.op, ast.BitOr):
+            acc.update(evaluate(v.left) if not (dotted(v.left) or "").endswith(".SI_units") else spread(v.left))
+            acc.update(evaluate(v.right) if not (dotted(v.right) or "").endswith(".SI_units") else spread(v.right))
+            return acc
         raise Undecided(f"{name}.SI_units: initialiser `{u(v)[:80]}` not recognised")
     for s in ci.node.body:
         if s is ci.si_ann:
@@ -531,6 +619,18 @@ def _check_constants(ctx: Ctx, us: UnitSystem, strip_blanks, shortcuts, unit_sit
         raise AnchorError("Constants.__post_init__ missing")
     pops = [c.args[0].value for c in walk_local(post) if isinstance(c, ast.Call) and call_name(c) == "pop" and c.args
             and isinstance(c.args[0], ast.Constant)]
+    for lp in [n for n in walk_local(post) if isinstance(n, ast.For) and isinstance(n.target, ast.Name)
+               and isinstance(n.iter, (ast.Tuple, ast.List, ast.Set))]:
+        if any(isinstance(c, ast.Call) and call_name(c) in ("pop", "__delitem__") and c.args and u(c.args[0]) == lp.target.id
+               for c in walk_local(lp)) or any(isinstance(d, ast.Delete) for d in walk_local(lp)):
+            pops += [e.value for e in lp.iter.elts if isinstance(e, ast.Constant)]
+    for dc in [n for n in walk_local(post) if isinstance(n, ast.DictComp)]:
+        for g_ in dc.generators:
+            for f_ in g_.ifs:
+                if isinstance(f_, ast.Compare) and isinstance(f_.ops[0], ast.NotIn) and isinstance(f_.comparators[0], (ast.Tuple, ast.List, ast.Set)):
+                    pops += [e.value for e in f_.comparators[0].elts if isinstance(e, ast.Constant)]
+    if not pops:
+        raise Undecided("Constants.__post_init__: cannot see how the utility fields are separated from the numeric constants")
     ctx.check("R3", sorted(pops) == sorted(util), mmod, "Constants.__post_init__", post,
               f"__post_init__ must remove exactly the utility fields of Constants {sorted(util)} before treating the rest as "
               f"numeric constants; it pops {sorted(pops)}", construct=f"utility fields popped {sorted(pops)}")
@@ -555,9 +655,10 @@ def _check_constants(ctx: Ctx, us: UnitSystem, strip_blanks, shortcuts, unit_sit
                    and (tosi is None or (isinstance(tosi, ast.Constant) and tosi.value is False))
                    and u(loop.iter) == "self.constants_in_SI.items()")
         facts = {"call": u(c), "unit": u(unit_arg), "iter": u(loop.iter)}
-        sets = [x for x in walk_local(loop) if isinstance(x, ast.Call) and u(x.func) == "object.__setattr__"]
-        ok_conv = ok_conv and len(sets) == 1 and u(sets[0].args[1]) == K and isinstance(sets[0].args[2], ast.Name) and \
-            any(isinstance(s, ast.Assign) and u(s.targets[0]) == sets[0].args[2].id and s.value is c for s in walk_local(loop))
+        sets = [x for x in walk_local(loop) if isinstance(x, ast.Call) and u(x.func) in ("object.__setattr__", "super().__setattr__")]
+        ok_conv = ok_conv and len(sets) == 1 and u(sets[0].args[-2]) == K and (
+            sets[0].args[-1] is c or (isinstance(sets[0].args[-1], ast.Name) and any(
+                isinstance(s, ast.Assign) and u(s.targets[0]) == sets[0].args[-1].id and s.value is c for s in walk_local(loop))))
     ctx.check("R3", ok_conv, mmod, "Constants.__post_init__", c,
               "each SI constant k is converted as self.units.convert_units(v, SI_units[k]) (SI -> simulation units) over "
               "constants_in_SI.items() and stored under the same name", construct="post-init conversion loop", facts=facts)
@@ -575,7 +676,11 @@ def _check_constants(ctx: Ctx, us: UnitSystem, strip_blanks, shortcuts, unit_sit
         rc = rets[0].value
         stars = [k.value for k in rc.keywords if k.arg is None]
         un = kwarg(rc, "units")
-        ok_tou = u(rc.func) == "type(self)" and len(stars) == 1 and u(stars[0]) == "self.constants_in_SI" and un is not None \
+        fexpr = rc.func
+        if isinstance(fexpr, ast.Name):
+            dv = [s_.value for s_ in walk_local(tou) if isinstance(s_, ast.Assign) and u(s_.targets[0]) == fexpr.id]
+            fexpr = dv[0] if len(dv) == 1 else fexpr
+        ok_tou = u(fexpr) in ("type(self)", "self.__class__") and len(stars) == 1 and u(stars[0]) == "self.constants_in_SI" and un is not None \
             and u(un) == tou.args.args[1].arg
     ctx.check("R3", ok_tou, mmod, "Constants.to_units", rets[0] if rets else tou,
               "to_units must rebuild the object from the ORIGINAL SI values (**self.constants_in_SI) with the new units; passing "
@@ -749,6 +854,17 @@ def _constant_dimensions(ctx: Ctx, us: UnitSystem) -> dict[str, dict]:
     return dims
 
 
+def _as_value_of_conversion(pm: dict, x: ast.AST):
+    """the convert_units call of which x is the VALUE argument (positional 0 or value=), else None"""
+    p = pm.get(x)
+    if isinstance(p, ast.keyword) and p.arg == "value":
+        p = pm.get(p)
+        return p if isinstance(p, ast.Call) and call_name(p) == "convert_units" else None
+    if isinstance(p, ast.Call) and call_name(p) == "convert_units" and p.args and p.args[0] is x:
+        return p
+    return None
+
+
 def _check_constants_use(ctx: Ctx, us: UnitSystem, strip_blanks, shortcuts) -> None:
     dims = _constant_dimensions(ctx, us)
     ctx.sample({"rule": "R5", "dimensional_constants": {k: _fmt_vec(v) for k, v in dims.items()}})
@@ -774,13 +890,9 @@ def _check_constants_use(ctx: Ctx, us: UnitSystem, strip_blanks, shortcuts) -> N
                     if carrier is not None:
                         uses = [x for x in walk_local(fn) if isinstance(x, ast.Name) and x.id == carrier and isinstance(x.ctx, ast.Load)]
                         for x in uses:
-                            p = pm.get(x)
-                            if isinstance(p, ast.Call) and call_name(p) == "convert_units" and p.args and p.args[0] is x:
-                                calls.append(p)
-                            else:
-                                calls.append(None)
+                            calls.append(_as_value_of_conversion(pm, x))
                     else:
-                        calls.append(par if isinstance(par, ast.Call) and call_name(par) == "convert_units" and par.args and par.args[0] is n else None)
+                        calls.append(_as_value_of_conversion(pm, n))
                     reaches = bool(calls) and all(c is not None for c in calls)
                     if not is_rule:
                         if not reaches:
@@ -810,7 +922,7 @@ def _check_constants_use(ctx: Ctx, us: UnitSystem, strip_blanks, shortcuts) -> N
 # =====================================================================================
 def run(ctx: Ctx) -> None:
     mod, cls, meths, us = _units_system(ctx)
-    strip_blanks, shortcuts = _check_convert(ctx, mod, meths)
+    strip_blanks, shortcuts = _check_convert(ctx, mod, cls, meths)
     unit_sites: list = []
     info = _check_constants(ctx, us, strip_blanks, shortcuts, unit_sites)
     n_calls, n_nonlit = _collect_sites(ctx, unit_sites)
